@@ -165,11 +165,10 @@ impl Typer
 	{
 		if let Some(symbol) = self.symbols.get_mut(&identifier.resolution_id)
 		{
-			// A symbol whose type was declared keeps that type, because
+			// A symbol whose type is known keeps that type, because
 			// a poisoned value does not make its type unknown, and poison
 			// from a preliminary pass would hide errors in the final pass.
-			if !(symbol.identifier.is_authoritative
-				&& symbol.value_type.is_ok())
+			if !symbol.value_type.is_ok()
 			{
 				symbol.value_type = Err(poison);
 			}
